@@ -215,11 +215,13 @@ struct Obs {
     cmp: String,
     /// read-recording monitor: Some(detail) when the transferred bytes are not the visible prefix
     unrecorded: Option<String>,
+    /// a single read made the buffer shorter than it was (bytes the OS never touched disappeared)
+    shrunk: Option<String>,
 }
 
 fn obs(text: impl Into<String>) -> Obs {
     let t = text.into();
-    Obs { cmp: t.clone(), text: t, unrecorded: None }
+    Obs { cmp: t.clone(), text: t, unrecorded: None, shrunk: None }
 }
 
 fn errno(e: &io::Error) -> i32 {
@@ -260,7 +262,15 @@ fn read_obs(n: usize, shs: &[Shape], roots: &[Vec<u8>], vectored: bool) -> Obs {
     } else {
         None
     };
-    Obs { text: format!("ok {n} {lens_t} {hex_t}"), cmp: format!("ok {n} {hex_t}"), unrecorded }
+    let shrunk = if !vectored && roots[0].len() < shs[0].len {
+        Some(format!("read returned {n}; the buffer had length {} and came back with length {}", shs[0].len, roots[0].len()))
+    } else {
+        None
+    };
+    // single reads: the OS twin keeps the caller's length unless the data extends beyond it, so the length is
+    // comparable; vectored lengths are left to the F15 monitor
+    let cmp = if vectored { format!("ok {n} {hex_t}") } else { format!("ok {n} {lens_t} {hex_t}") };
+    Obs { text: format!("ok {n} {lens_t} {hex_t}"), cmp, unrecorded, shrunk }
 }
 
 // ---------------------------------------------------------------------------------------------
@@ -354,6 +364,26 @@ async fn compio_line(st: &mut CState, dir: &Path, w: &[&str]) -> Obs {
         return obs("unsupported");
     }
     match w {
+        ["hread", h, pos, cap] => {
+            let (Some(h), Some(pos), Some(cap)) = (num(h), num(pos), huge_cap(cap)) else { return obs("bad-op") };
+            let Some(f) = st.files.get(&h) else { return obs("nohandle") };
+            let compio_buf::BufResult(r, v) = f.read_at(Vec::<u8>::with_capacity(cap), pos).await;
+            huge_obs(r, &v)
+        }
+        ["hpread", p, cap] => {
+            let (Some(p), Some(cap)) = (num(p), huge_cap(cap)) else { return obs("bad-op") };
+            let Some(pp) = st.pipes.get_mut(&p) else { return obs("nohandle") };
+            let writer_open = pp.tx.is_some() || pp.fifo;
+            let Some(rx) = pp.rx.as_mut() else { return obs("closed") };
+            if pp.buffered == 0 && writer_open {
+                return obs("wouldblock");
+            }
+            let compio_buf::BufResult(r, v) = rx.read(Vec::<u8>::with_capacity(cap)).await;
+            if let Ok(n) = &r {
+                pp.buffered -= (*n).min(pp.buffered);
+            }
+            huge_obs(r, &v)
+        }
         ["openx", ..] => {
             let Some((h, name, b, custom, mode)) = parse_openx(w) else { return obs("bad-op") };
             let mut oo = compio_fs::OpenOptions::new();
@@ -742,7 +772,7 @@ fn openx_obs(fd: i32) -> Obs {
     }
     let text = format!("ok {}", fl & libc::O_ACCMODE);
     let status = fl & (libc::O_APPEND | libc::O_SYNC | libc::O_DSYNC | libc::O_DIRECT | libc::O_NOATIME);
-    Obs { cmp: format!("{text} status={status:o}"), text, unrecorded: None }
+    Obs { cmp: format!("{text} status={status:o}"), text, unrecorded: None, shrunk: None }
 }
 
 fn parse_openx<'a>(w: &[&'a str]) -> Option<(u64, &'a str, Vec<bool>, i32, u32)> {
@@ -752,6 +782,20 @@ fn parse_openx<'a>(w: &[&'a str]) -> Option<(u64, &'a str, Vec<bool>, i32, u32)>
     }
     let custom: u32 = custom.parse().ok()?;
     Some((h.parse().ok()?, name, bits.bytes().map(|x| x == b'1').collect(), custom as i32, u32::from_str_radix(mode, 8).ok()?))
+}
+
+/// result of a read into a fresh `Vec::with_capacity(huge)`: `ok N LEN HEX(recorded bytes, at most 64)`
+fn huge_obs(r: io::Result<usize>, v: &Vec<u8>) -> Obs {
+    match r {
+        Ok(n) => obs(format!("ok {n} {} {}", v.len(), hex(&v[..v.len().min(64)]))),
+        Err(e) => err_obs(&e),
+    }
+}
+
+/// capacities of 4 GiB and more are only reserved (never touched), below 2^40
+fn huge_cap(s: &str) -> Option<usize> {
+    let c: usize = s.parse().ok()?;
+    if c > (1 << 40) { None } else { Some(c) }
 }
 
 fn is_fifo_path(p: &Path) -> bool {
@@ -785,7 +829,7 @@ fn meta_obs(is_dir: bool, is_file: bool, is_symlink: bool, len: u64, mode: u32, 
     } else {
         "ok other".to_string()
     };
-    Obs { cmp: format!("{text} mode={mode:o} nlink={nlink}"), text, unrecorded: None }
+    Obs { cmp: format!("{text} mode={mode:o} nlink={nlink}"), text, unrecorded: None, shrunk: None }
 }
 
 fn run_compio(rt: &Runtime, dir: &Path, lines: &[String]) -> Vec<Obs> {
@@ -851,8 +895,14 @@ fn os_read(fd: i32, shs: &[Shape], pos: Option<u64>, vectored: bool) -> Obs {
     match cvt(r) {
         Ok(n) => {
             let hexes: Vec<String> = mems.iter().map(|m| hex(m)).collect();
-            let h = if vectored { join_or(hexes) } else { hexes[0].clone() };
-            obs(format!("ok {n} {h}"))
+            if vectored {
+                obs(format!("ok {n} {}", join_or(hexes)))
+            } else {
+                // what a caller of pread on `&mut buf[begin..end]` holds afterwards: the buffer keeps its
+                // length unless the data extends beyond it
+                let len = shs[0].len.max(shs[0].begin + n);
+                obs(format!("ok {n} {len} {}", hexes[0]))
+            }
         }
         Err(e) => err_obs(&e),
     }
@@ -889,6 +939,32 @@ fn os_line(st: &mut OState, dir: &Path, w: &[&str]) -> Obs {
         Err(e) => err_obs(&e),
     };
     match w {
+        ["hread", h, pos, cap] => {
+            let (Some(h), Some(pos), Some(cap)) = (num(h), num(pos), huge_cap(cap)) else { return obs("bad-op") };
+            let Some(f) = st.files.get(&h) else { return obs("nohandle") };
+            let mut v = Vec::<u8>::with_capacity(cap);
+            let r = cvt(unsafe { libc::pread(f.as_raw_fd(), v.as_mut_ptr() as *mut _, cap, pos as i64) });
+            if let Ok(n) = &r {
+                unsafe { v.set_len(*n) };
+            }
+            huge_obs(r, &v)
+        }
+        ["hpread", p, cap] => {
+            let (Some(p), Some(cap)) = (num(p), huge_cap(cap)) else { return obs("bad-op") };
+            let Some(pp) = st.pipes.get_mut(&p) else { return obs("nohandle") };
+            let writer_open = pp.tx.is_some() || pp.fifo;
+            let Some(rx) = pp.rx.as_ref() else { return obs("closed") };
+            if pp.buffered == 0 && writer_open {
+                return obs("wouldblock");
+            }
+            let mut v = Vec::<u8>::with_capacity(cap);
+            let r = cvt(unsafe { libc::read(rx.as_raw_fd(), v.as_mut_ptr() as *mut _, cap) });
+            if let Ok(n) = &r {
+                unsafe { v.set_len(*n) };
+                pp.buffered -= (*n).min(pp.buffered);
+            }
+            huge_obs(r, &v)
+        }
         ["openx", ..] => {
             use std::os::unix::fs::OpenOptionsExt;
             let Some((h, name, b, custom, mode)) = parse_openx(w) else { return obs("bad-op") };
@@ -1392,6 +1468,58 @@ fn gen_pipe_case(rng: &mut Rng) -> Vec<String> {
     l
 }
 
+/// short reads into buffers that already hold more than the read delivers (length must be kept)
+fn gen_short_read_case(rng: &mut Rng) -> Vec<String> {
+    let mut l = vec![];
+    let flen = rng.range(6, 14);
+    l.push(format!("writeall a {}", hex(&rbytes(rng, flen, flen))));
+    l.push("open 1 a 10000".into());
+    l.push("pipe 1".into());
+    for _ in 0..rng.range(4, 9) {
+        let cap = *rng.pick(&[8u64, 12, 16]);
+        let len = if rng.chance(1, 2) { cap } else { cap / 2 };
+        let fill = rng.below(256);
+        let buf = if rng.chance(1, 5) { format!("{cap}:{len}:{fill}:{}:-", rng.below(len / 2 + 1)) } else { format!("{cap}:{len}:{fill}") };
+        // at / near / beyond the end of the file
+        let pos = match rng.below(5) {
+            0 => flen,
+            1 => flen + rng.range(1, 5),
+            2 => flen.saturating_sub(rng.range(1, 3)),
+            3 => flen.saturating_sub(rng.range(3, 6)),
+            _ => rng.below(flen),
+        };
+        if rng.chance(3, 4) {
+            l.push(format!("readat 1 {pos} {buf}"));
+        } else {
+            // the same through a pipe holding fewer bytes than the buffer's length
+            l.push(format!("pwrite 1 {}:0", hex(&rbytes(rng, 1, 3))));
+            l.push(format!("pread 1 {buf}"));
+        }
+    }
+    l
+}
+
+/// capacities around 2^32 (`Vec::with_capacity`, reserved but never touched)
+fn gen_huge_case(rng: &mut Rng) -> Vec<String> {
+    let caps = [(1u64 << 32) - 1, 1 << 32, (1 << 32) + 5, 1 << 33, (1 << 32) + 4096];
+    let mut l = vec![];
+    l.push("writeall a 68656c6c6f2c20776f726c64210a".into());
+    l.push("open 1 a 10000".into());
+    for _ in 0..rng.range(2, 4) {
+        l.push(format!("hread 1 {} {}", *rng.pick(&[0u64, 0, 3, 13, 14, 20]), rng.pick(&caps)));
+    }
+    l.push("pipe 1".into());
+    l.push("pwrite 1 68656c6c6f2c20776f726c64210a:0".into());
+    for _ in 0..rng.range(2, 3) {
+        l.push(format!("hpread 1 {}", rng.pick(&caps)));
+    }
+    l.push("pclose 1 w".into());
+    l.push(format!("hpread 1 {}", rng.pick(&caps)));
+    l.push("pread 1 32:0:0".into());
+    l.push("pread 1 32:0:0".into());
+    l
+}
+
 fn gen_fifo_case(rng: &mut Rng) -> Vec<String> {
     let mut l = vec!["mkfifo p".to_string()];
     let mut name = "p";
@@ -1570,6 +1698,30 @@ fn generate(tier: &str, rng: &mut Rng) -> Vec<Case> {
     for i in 0..40 * scale {
         push(format!("hostile/{i}"), gen_hostile_case(rng));
     }
+    // the three capacities around 2^32, file and pipe, deterministic
+    for cap in [(1u64 << 32) - 1, 1 << 32, (1 << 32) + 5] {
+        push(
+            format!("huge/{cap}"),
+            vec![
+                "writeall a 68656c6c6f2c20776f726c64210a".into(),
+                "open 1 a 10000".into(),
+                format!("hread 1 0 {cap}"),
+                format!("hread 1 9 {cap}"),
+                "pipe 1".into(),
+                "pwrite 1 68656c6c6f2c20776f726c64210a:0".into(),
+                format!("hpread 1 {cap}"),
+                "pclose 1 w".into(),
+                format!("hpread 1 {cap}"),
+                format!("hpread 1 {cap}"),
+            ],
+        );
+    }
+    for i in 0..6 * scale {
+        push(format!("huge-rand/{i}"), gen_huge_case(rng));
+    }
+    for i in 0..80 * scale {
+        push(format!("short-read/{i}"), gen_short_read_case(rng));
+    }
     for i in 0..40 * scale {
         push(format!("fifo/{i}"), gen_fifo_case(rng));
     }
@@ -1701,6 +1853,9 @@ fn main() {
                 if x.cmp != o[i].cmp {
                     bad = true;
                     ex.fail(sig("C08:os-divergence"), format!("line {i} `{line}` driver={drv}: compio `{}` but the OS `{}`", x.cmp, o[i].cmp));
+                }
+                if let Some(d) = &x.shrunk {
+                    ex.fail("C08:read-shrinks-buffer", format!("line {i} `{line}` driver={drv}: {d}"));
                 }
                 if let Some(d) = &x.unrecorded {
                     let vect = op == "readv" || op == "preadv";
